@@ -72,7 +72,11 @@ def multitarget_rule(build_inputs, buildfile, targets, deps=None,
     if len(targets) > 1:
         first = targets[0]
         primary = _get_path(first).addext('.stamp')
-        buildfile.rule(target=targets, deps=[primary])
+        # Give this rule a no-op recipe: without one, make doesn't check the
+        # outputs again after the stamp's recipe has rewritten them, and steps
+        # that depend on an output it looked at earlier aren't rebuilt.
+        buildfile.rule(target=targets, deps=[primary],
+                       recipe=[Silent([':'])])
         recipe = listify(recipe) + [Silent([ 'touch', qvar('@') ])]
         if clean_stamp:
             build_inputs.add_target(file_types.File(primary))
